@@ -8,7 +8,9 @@ import DdoModel.Examples.PspDp
     `ub_utils::mst` computes is a lower bound of the changeover cost of every sequence of productions visiting the members);
     `mergeOk_partial : I.T ≤ 2^63 → MergeOkStmt I` and the kernel-checked refutation without the triangle inequality
     `mergeOk_fails_without_triangle` (finding D15; `PspProofsMerge.lean`, with `bestRem_mono`); `wfRel`, `noClampDom`,
-    `psp_relaxed_ub_bestRem` (`PspProofsWf.lean`).  Still stated only: `DpExactStmt`. -/
+    `psp_relaxed_ub_bestRem` (`PspProofsWf.lean`); `dpExact : DpExactStmt I` (`PspProofsExact.lean`: the DP model is exact, with or
+    without the triangle inequality; `bestRem_isMinOf`: at every state a compilation builds); `root_exact`, `psp_relaxed_ub`:
+    the closed relaxed-diagram corollary against `Psp.best` (`PspProofsMain.lean`).  Nothing is stated only any more. -/
 namespace Ddo.Examples.PspModel
 open Ddo Ddo.Examples Ddo.Examples.Util
 
@@ -226,7 +228,7 @@ theorem rub_ge_neg_mst (hstk : ∀ i, 0 ≤ T.stk.getD i 0) (s : St) (r : Int) (
         exact ⟨mask, co, rfl, hc, by omega⟩
 
 -- ------------------------------------------------------------------------------------------------------------------
--- stated, not proved: checked pointwise by the driver on every generated case
+-- the statements (checked pointwise by the driver on every generated case; PROVED in `PspProofs*.lean`, see the header)
 
 /-- the instances of the format: one row per item, non-negative costs, at most one unit of an item due per period -/
 structure InstOk (I : Psp.Inst) : Prop where
@@ -253,7 +255,8 @@ def MergeOkStmt (I : Psp.Inst) : Prop :=
   ∀ (X : List St) (u : St) (h : Int), u ∈ X → (∀ w ∈ X, StOk I w ∧ w.time = u.time) → bestRem (tabOf I) u = some h →
     ∃ h', bestRem (tabOf I) (mergeStates (tabOf I) X) = some h' ∧ h ≤ h'
 
-/-- the DP model is exact: minus the value-to-go of the root is the least cost of the specification's feasible plans -/
+/-- the DP model is exact: minus the value-to-go of the root is the least cost of the specification's feasible plans
+    (a theorem: `dpExact`, `PspProofsExact.lean`) -/
 def DpExactStmt (I : Psp.Inst) : Prop :=
   InstOk I → bestRem (tabOf I) (initSt (tabOf I)) = (specBestExt (specTable I) []).map (fun c => -c)
 
